@@ -448,11 +448,26 @@ def write_replay(ctx, script, evs, idx, mine, why):
 # ----------------------------------------------------------------------------
 # evidence
 # ----------------------------------------------------------------------------
-def write_evidence(ctx, coverage, assumptions, violations, level='model_checking'):
+def claimed_level(prop):
+    try:
+        m = json.load(open(os.path.join(VERIF, 'MANIFEST.json')))
+        for c in m['checks']:
+            if c['property_id'] == prop:
+                return c['level_claimed']['category']
+    except Exception:
+        pass
+    return 'model_checking'
+
+
+def write_evidence(ctx, coverage, assumptions, violations, level=None):
     os.makedirs(os.path.join(VERIF, 'evidence'), exist_ok=True)
+    if level is None:
+        level = claimed_level(ctx.prop)
     cov = dict(coverage)
-    cov.setdefault('states', max(ctx.mc_states, 0))
-    cov.setdefault('transitions', max(ctx.mc_transitions, 0))
+    if ctx.mc_states > 0 and ctx.mc_transitions > 0:
+        # design-level model checking done by this invocation
+        cov.setdefault('states', ctx.mc_states)
+        cov.setdefault('transitions', ctx.mc_transitions)
     cov['design_model_runs'] = ctx.mc_runs
     cov['tlc_invocations'] = ctx.tlc_cmds
     ev = dict(property_id=ctx.prop, tier=ctx.tier, seed=ctx.seed, level=level, coverage=cov,
